@@ -33,7 +33,9 @@ func NewNumber(id *token.Token) (ExpNode, error) {
 		}
 		n, err = strconv.ParseUint(nstring, 16, 64)
 	} else {
-		n, err = strconv.ParseUint(nstring, 10, 64)
+		// A decimal numeral that does not fit a signed integer denotes a float
+		// (only hexadecimal numerals wrap around).
+		n, err = strconv.ParseUint(nstring, 10, 63)
 		// If an integer is too big let's make it a float
 		if err != nil {
 			f, err := strconv.ParseFloat(nstring, 64)
